@@ -10,6 +10,7 @@
 -/
 import AY.Lemmas.PlainEvalLemmas
 import AY.Lemmas.XrefLemmas
+import AY.Lemmas.TaintLemmas
 namespace AY
 
 theorem WF.enter {n : Node} {path : Path} {st : EvSt} (hwf : WF st)
@@ -26,33 +27,34 @@ theorem WF.enter {n : Node} {path : Path} {st : EvSt} (hwf : WF st)
 theorem evalImpl_comp_items {rec : Rec} {root : Node} {w : World} {rs : Bool} {f : Flags} {k : CompKind}
     {cs : List (Key × Node)} {path : Path} {st st' : EvSt} {v : Val}
     (h : evalImpl rec root w rs (.comp f k cs) path st = .ok (v, st')) :
-    ∃ rs' items st1, evalItems rec rs' path cs st = .ok (items, st1) ∧ st'.cache = st1.cache := by
+    ∃ rs' items st1, evalItems rec rs' path cs st = .ok (items, st1) ∧ st'.cache = st1.cache ∧
+      st'.tainted = st1.tainted ∧ st'.unsafeSeen = st1.unsafeSeen ∧ (rs' = rs ∨ rs' = true) := by
   cases k with
   | dict =>
     simp only [evalImpl] at h
     split at h
     · cases h
-    · rename_i items st1 he; cases h; exact ⟨_, _, _, he, rfl⟩
+    · rename_i items st1 he; cases h; exact ⟨_, _, _, he, rfl, rfl, rfl, .inl rfl⟩
   | list =>
     simp only [evalImpl] at h
     split at h
     · cases h
-    · rename_i items st1 he; cases h; exact ⟨_, _, _, he, rfl⟩
+    · rename_i items st1 he; cases h; exact ⟨_, _, _, he, rfl, rfl, rfl, .inl rfl⟩
   | append =>
     simp only [evalImpl] at h
     split at h
     · cases h
-    · rename_i items st1 he; cases h; exact ⟨_, _, _, he, rfl⟩
+    · rename_i items st1 he; cases h; exact ⟨_, _, _, he, rfl, rfl, rfl, .inl rfl⟩
   | extend =>
     simp only [evalImpl] at h
     split at h
     · cases h
-    · rename_i items st1 he; cases h; exact ⟨_, _, _, he, rfl⟩
+    · rename_i items st1 he; cases h; exact ⟨_, _, _, he, rfl, rfl, rfl, .inl rfl⟩
   | stream =>
     simp only [evalImpl] at h
     split at h
     · cases h
-    · rename_i items st1 he; cases h; exact ⟨_, _, _, he, rfl⟩
+    · rename_i items st1 he; cases h; exact ⟨_, _, _, he, rfl, rfl, rfl, .inl rfl⟩
   | path ref =>
     simp only [evalImpl] at h
     split at h
@@ -62,7 +64,7 @@ theorem evalImpl_comp_items {rec : Rec} {root : Node} {w : World} {rs : Bool} {f
       · cases h
       · split at h
         · cases h
-        · cases h; exact ⟨_, _, _, he, rfl⟩
+        · cases h; exact ⟨_, _, _, he, rfl, rfl, rfl, .inl rfl⟩
   | call fn =>
     simp only [evalImpl] at h
     split at h
@@ -76,7 +78,7 @@ theorem evalImpl_comp_items {rec : Rec} {root : Node} {w : World} {rs : Bool} {f
           · cases h
           · split at h
             · cases h
-            · cases h; exact ⟨_, _, _, he, rfl⟩
+            · cases h; exact ⟨_, _, _, he, rfl, rfl, rfl, .inr rfl⟩
   | bind fn =>
     simp only [evalImpl] at h
     split at h
@@ -90,7 +92,7 @@ theorem evalImpl_comp_items {rec : Rec} {root : Node} {w : World} {rs : Bool} {f
           · cases h
           · split at h
             · cases h
-            · cases h; exact ⟨_, _, _, he, rfl⟩
+            · cases h; exact ⟨_, _, _, he, rfl, rfl, rfl, .inr rfl⟩
 
 /-- after the children are evaluated each of them is memoised -/
 theorem evalItems_cached {root : Node} {w : World} {fuel : Nat} {rs : Bool} {path : Path} :
@@ -174,35 +176,69 @@ structure Cov (root : Node) (st : EvSt) : Prop where
   intree : ∀ p, plookup p st.cache ≠ none → ∃ m, getNode root p = some m
   /-- a memoised reference holds the value memoised for the node its chain ends in -/
   alias : ∀ p f t v, getNode root p = some (.leaf f (.xref t)) → plookup p st.cache = some v →
-    ∃ fuel tp, xrefResolve root fuel t = some tp ∧ plookup tp st.cache = some v
+    ∃ fuel tp, xrefResolve root fuel t = some tp ∧ plookup tp st.cache = some v ∧
+      (p ∉ st.tainted → tp ∉ st.tainted)
   /-- the memoised value of an unsafe node of the tree is tainted -/
   utaint : ∀ p m, plookup p st.cache ≠ none → getNode root p = some m → eSafe m.flags = false →
     p ∈ st.tainted
+  /-- untainted is closed under children: the children of a memoised untainted container are
+      untainted (together with the last clause of `alias`: "tainted is closed") -/
+  closed : ∀ p m key c, plookup p st.cache ≠ none → p ∉ st.tainted → getNode root p = some m →
+    (key, c) ∈ m.children → p ++ [key] ∉ st.tainted
 
 theorem Cov.init (root : Node) : Cov root {} :=
   ⟨WF.init, (by intro p m h; exact absurd rfl h), (by intro p m what h; exact absurd rfl h),
    (by intro p h; exact absurd rfl h), (by intro p f t v _ h; cases h),
-   (by intro p m h; exact absurd rfl h)⟩
+   (by intro p m h; exact absurd rfl h), (by intro p m key c h; exact absurd rfl h)⟩
+
+theorem Cov.seeTaint {root : Node} {st : EvSt} (h : Cov root st) : Cov root (seeTaint st) :=
+  ⟨h.wf.seeTaint, h.down, h.dyn, h.intree, h.alias, h.utaint, h.closed⟩
+
+theorem cleanRec_evalNodeF (root : Node) (w : World) (fuel : Nat) : CleanRec (evalNodeF root w fuel) :=
+  ⟨fun rs m p s v s' => evalNodeF_seen_mono root w fuel rs m p s v s',
+   fun rs m p s v s' => evalNodeF_clean_strict root w fuel rs m p s v s'⟩
+
+/-- an evaluation across which the counter did not move memoises an untainted value -/
+theorem evalNodeF_clean_untainted {root : Node} {w : World} {fuel : Nat} {rs : Bool} {n : Node}
+    {path : Path} {st st' : EvSt} {v : Val} (hwf : WF st)
+    (h : evalNodeF root w fuel rs n path st = .ok (v, st'))
+    (hs : st'.unsafeSeen = st.unsafeSeen) : eSafe n.flags = true ∧ path ∉ st'.tainted :=
+  evalNodeF_rs_untainted hwf (evalNodeF_clean_strict root w fuel rs n path st v st' h hs)
+
+theorem mem_alookup_some {k : Key} {c : Node} : ∀ {cs : List (Key × Node)}, (k, c) ∈ cs →
+    ∃ c', alookup k cs = some c'
+  | [], h => by cases h
+  | (k0, c0) :: rest, h => by
+    unfold alookup
+    split
+    · exact ⟨_, rfl⟩
+    · rcases List.mem_cons.1 h with heq | h
+      · cases heq; contradiction
+      · exact mem_alookup_some h
 
 /-- a successful reference loop started in a state satisfying `intree` and `alias` returns the value
-    memoised for the node the chain ends in -/
+    memoised for the node the chain ends in; if the counter did not move that node's value is
+    untainted -/
 theorem xrefLoop_resolve {root : Node} {w : World} {f : Nat} {rs : Bool} {self : Path} :
     ∀ (fuel : Nat) (cur : String) (chain : List String) (st : EvSt) (v : Val) (st' : EvSt),
+    WF st →
     (∀ p, plookup p st.cache ≠ none → ∃ m, getNode root p = some m) →
     (∀ p fl t v, getNode root p = some (.leaf fl (.xref t)) → plookup p st.cache = some v →
-      ∃ fuel tp, xrefResolve root fuel t = some tp ∧ plookup tp st.cache = some v) →
+      ∃ fuel tp, xrefResolve root fuel t = some tp ∧ plookup tp st.cache = some v ∧
+        (p ∉ st.tainted → tp ∉ st.tainted)) →
     xrefLoop (evalNodeF root w f) root rs self fuel cur chain st = .ok (v, st') →
-    ∃ fuel' tp, xrefResolve root fuel' cur = some tp ∧ plookup tp st'.cache = some v
-  | 0, cur, chain, st, v, st', _, _, h => by simp [xrefLoop] at h
-  | fuel + 1, cur, chain, st, v, st', hin, hal, h => by
+    ∃ fuel' tp, xrefResolve root fuel' cur = some tp ∧ plookup tp st'.cache = some v ∧
+      (st'.unsafeSeen = st.unsafeSeen → tp ∉ st'.tainted)
+  | 0, cur, chain, st, v, st', _, _, _, h => by simp [xrefLoop] at h
+  | fuel + 1, cur, chain, st, v, st', hwf, hin, hal, h => by
     rw [xrefLoop_succ] at h
     cases hstep : xrefStep (evalNodeF root w f) root rs self cur chain st with
     | next t =>
       rw [hstep] at h
       simp only at h
       obtain ⟨_, tp, fl, htp, _, _, hg⟩ := xrefStep_next hstep
-      obtain ⟨fuel', tp', hr, hv⟩ := xrefLoop_resolve fuel t _ st v st' hin hal h
-      exact ⟨fuel' + 1, tp', by rw [xrefResolve_step htp hg]; exact hr, hv⟩
+      obtain ⟨fuel', tp', hr, hv, hc⟩ := xrefLoop_resolve fuel t _ st v st' hwf hin hal h
+      exact ⟨fuel' + 1, tp', by rw [xrefResolve_step htp hg]; exact hr, hv, hc⟩
     | done r =>
       rw [hstep] at h
       simp only at h
@@ -213,25 +249,28 @@ theorem xrefLoop_resolve {root : Node} {w : World} {f : Nat} {rs : Bool} {self :
       · rename_i tp htp
         split at hstep
         · cases hstep
-        · rename_i v0 hg
+        · rename_i v0 st1 hg
           split at hstep
           · cases hstep
           · cases hstep
-            have hv1 : plookup tp st.cache = some v := by
-              unfold ctxGetNode at hg
-              split at hg
-              · rename_i v1 hv1
-                split at hg
-                · cases hg
-                · cases hg; exact hv1
-              · split at hg <;> cases hg
-            obtain ⟨m, hm⟩ := hin tp (by rw [hv1]; simp)
-            by_cases hx : ∃ fl t, m = .leaf fl (.xref t)
-            · obtain ⟨fl, t, rfl⟩ := hx
-              obtain ⟨fuel', tp', hr, hv'⟩ := hal tp fl t v hm hv1
-              exact ⟨fuel' + 1, tp', by rw [xrefResolve_step htp hm]; exact hr, hv'⟩
-            · exact ⟨1, tp, xrefResolve_stop htp hm (fun fl t e => hx ⟨fl, t, e⟩), hv1⟩
-        · rename_i n hg
+            rcases ctxGetNode_ok_inv hg with ⟨v1, hv, hv1, hcase⟩ | ⟨_, hn, _⟩
+            · cases hv
+              obtain ⟨m, hm⟩ := hin tp (by rw [hv1]; simp)
+              have hcache : st'.cache = st.cache ∧ st'.tainted = st.tainted ∧
+                  (st'.unsafeSeen = st.unsafeSeen → tp ∉ st.tainted) := by
+                rcases hcase with ⟨ht, rfl⟩ | ⟨_, _, rfl⟩
+                · exact ⟨rfl, rfl, fun _ => ht⟩
+                · refine ⟨rfl, rfl, ?_⟩
+                  intro e; simp only [seeTaint_unsafeSeen] at e; omega
+              rw [hcache.1, hcache.2.1]
+              by_cases hx : ∃ fl t, m = .leaf fl (.xref t)
+              · obtain ⟨fl, t, rfl⟩ := hx
+                obtain ⟨fuel', tp', hr, hv', hc'⟩ := hal tp fl t v hm hv1
+                exact ⟨fuel' + 1, tp', by rw [xrefResolve_step htp hm]; exact hr, hv',
+                  fun e => hc' (hcache.2.2 e)⟩
+              · exact ⟨1, tp, xrefResolve_stop htp hm (fun fl t e => hx ⟨fl, t, e⟩), hv1, hcache.2.2⟩
+            · cases hn
+        · rename_i n st1 hg
           split at hstep
           · cases hstep
           · split at hstep
@@ -240,13 +279,11 @@ theorem xrefLoop_resolve {root : Node} {w : World} {f : Nat} {rs : Bool} {self :
               injection hstep with hres
               have hc := evalNodeF_cached hres
               have hgn : getNode root tp = some n := by
-                unfold ctxGetNode at hg
-                split at hg
-                · split at hg <;> cases hg
-                · split at hg
-                  · cases hg
-                  · rename_i n' hn'; cases hg; exact hn'
-              exact ⟨1, tp, xrefResolve_stop htp hgn (fun fl t e => hnx fl t e), hc⟩
+                rcases ctxGetNode_ok_inv hg with ⟨_, hn, _⟩ | ⟨n', hn, _, hn', _⟩
+                · cases hn
+                · cases hn; exact hn'
+              exact ⟨1, tp, xrefResolve_stop htp hgn (fun fl t e => hnx fl t e), hc,
+                fun e => (evalNodeF_clean_untainted hwf hres e).2⟩
 
 theorem evalNodeF_cov (root : Node) (w : World) (huk : uniqueKeys root = true) :
     ∀ (fuel : Nat) (rs : Bool) (n : Node) (path : Path) (st : EvSt) (v : Val) (st' : EvSt),
@@ -258,12 +295,14 @@ theorem evalNodeF_cov (root : Node) (w : World) (huk : uniqueKeys root = true) :
     obtain ⟨_, hcase⟩ := evalNodeF_ok_inv h
     rcases hcase with ⟨_, _, rfl⟩ | ⟨hnone, hnip, st2, himpl, rfl⟩
     · exact ⟨hwf', (by simpa using hcov.down), (by simpa using hcov.dyn), (by simpa using hcov.intree),
-        (by simpa using hcov.alias), (by simpa using hcov.utaint)⟩
+        (by simpa using hcov.alias), (by simpa using hcov.utaint), (by simpa using hcov.closed)⟩
     · have hcov0 : Cov root (enter path (bump n st)) :=
         ⟨hcov.wf.enter hnone, (by simpa using hcov.down), (by simpa using hcov.dyn),
-         (by simpa using hcov.intree), (by simpa using hcov.alias), (by simpa using hcov.utaint)⟩
+         (by simpa using hcov.intree), (by simpa using hcov.alias), (by simpa using hcov.utaint),
+         (by simpa using hcov.closed)⟩
       obtain ⟨s1, extra, hcov1, hext, rfl, _⟩ :=
         evalImpl_lift' (I := Cov root) (R := Ext) Ext.refl Ext.trans
+          (fun _ s hs => ⟨hs.seeTaint, Ext.seeTaint s⟩)
           (fun rs' m p s v s' hc hI hr =>
             ⟨evalNodeF_cov root w huk fuel rs' m p s v s' (hc.placed hp) hI hr,
              (evalNodeF_wf root w fuel rs' m p s v s' hI.wf hr).2⟩) hcov0 himpl
@@ -281,7 +320,35 @@ theorem evalNodeF_cov (root : Node) (w : World) (huk : uniqueKeys root = true) :
         split at hp1
         · rename_i e; exact .inl e.symm
         · exact .inr hp1
-      refine ⟨hwf', ?_, ?_, ?_, ?_, ?_⟩
+      have hpathnone : plookup path s1.cache = none :=
+        hcov1.wf.prog path (by rw [hext.prog]; simp)
+      -- the taint decision of `finish`
+      have hback : ∀ q, q ∈ (finish n path v (bump n st).unsafeSeen
+          { s1 with log := s1.log ++ extra }).tainted → q = path ∨ q ∈ s1.tainted := by
+        intro q hq
+        rw [finish_tainted] at hq
+        split at hq
+        · exact List.mem_cons.1 hq
+        · exact .inr hq
+      have hclean : path ∉ (finish n path v (bump n st).unsafeSeen
+          { s1 with log := s1.log ++ extra }).tainted →
+          s1.unsafeSeen = (bump n st).unsafeSeen ∧ eSafe n.flags = true := by
+        intro hq
+        rw [finish_tainted] at hq
+        split at hq
+        · exact absurd List.mem_cons_self hq
+        · rename_i hc
+          simp only [Bool.or_eq_true, bne_iff_ne, ne_eq, Bool.not_eq_true', not_or, Decidable.not_not,
+            Bool.not_eq_false] at hc
+          exact hc
+      have hsub : ∀ q, q ∈ s1.tainted → q ∈ (finish n path v (bump n st).unsafeSeen
+          { s1 with log := s1.log ++ extra }).tainted := by
+        intro q hq
+        rw [finish_tainted]
+        split
+        · exact List.mem_cons_of_mem _ hq
+        · exact hq
+      refine ⟨hwf', ?_, ?_, ?_, ?_, ?_, ?_⟩
       · intro p m hpc hpm q m' hq
         simp only [finish_cache] at hpc ⊢
         rcases hsplit p hpc with rfl | hpc1
@@ -296,7 +363,7 @@ theorem evalNodeF_cov (root : Node) (w : World) (huk : uniqueKeys root = true) :
               split at hq
               · cases hq
               · rename_i c hc
-                obtain ⟨rs', items, st1, he, hceq⟩ := evalImpl_comp_items himpl
+                obtain ⟨rs', items, st1, he, hceq, _, _, _⟩ := evalImpl_comp_items himpl
                 have hch := (evalItems_cached cs _ items st1 hcov0.wf he).2 key c (alookup_mem hc)
                 have hch1 : plookup (p ++ [key]) s1.cache ≠ none := by
                   have : s1.cache = st1.cache := hceq
@@ -333,18 +400,30 @@ theorem evalNodeF_cov (root : Node) (w : World) (huk : uniqueKeys root = true) :
               hcov1.wf.prog path (by rw [hext.prog]; simp)
             rw [this] at htp; cases htp
           simp only [plookup_cons, hne, if_false]; exact htp
+        have hnotpath : ∀ tp, plookup tp s1.cache = some a → tp ≠ path := by
+          intro tp htp e; subst e; rw [hpathnone] at htp; cases htp
         by_cases hpp : p = path
         · subst hpp
           rw [hgn] at hpm; cases hpm
           simp only [plookup_cons, if_true] at hpc
           cases hpc
           simp only [evalImpl] at himpl
-          obtain ⟨fuel', tp, hr, hv⟩ := xrefLoop_resolve _ _ _ _ _ _ hcov0.intree hcov0.alias himpl
-          exact ⟨fuel', tp, hr, hkeep tp hv⟩
+          obtain ⟨fuel', tp, hr, hv, hc⟩ :=
+            xrefLoop_resolve _ _ _ _ _ _ hcov0.wf hcov0.intree hcov0.alias himpl
+          refine ⟨fuel', tp, hr, hkeep tp hv, ?_⟩
+          intro hnt htp
+          have hcl := hclean hnt
+          rcases hback tp htp with e | htp1
+          · exact hnotpath tp hv e
+          · exact hc (by simpa using hcl.1) htp1
         · have hne : path ≠ p := fun e => hpp e.symm
           simp only [plookup_cons, hne, if_false] at hpc
-          obtain ⟨fuel', tp, hr, hv⟩ := hcov1.alias p fl t a hpm hpc
-          exact ⟨fuel', tp, hr, hkeep tp hv⟩
+          obtain ⟨fuel', tp, hr, hv, hc⟩ := hcov1.alias p fl t a hpm hpc
+          refine ⟨fuel', tp, hr, hkeep tp hv, ?_⟩
+          intro hnt htp
+          rcases hback tp htp with e | htp1
+          · exact hnotpath tp hv e
+          · exact hc (fun h1 => hnt (hsub p h1)) htp1
       · intro p m hpc hpm hs
         simp only [finish_cache] at hpc
         rw [finish_tainted]
@@ -355,6 +434,43 @@ theorem evalNodeF_cov (root : Node) (w : World) (huk : uniqueKeys root = true) :
           split
           · exact List.mem_cons_of_mem _ this
           · exact this
+      · intro p m key c hpc hnt hpm hmem hq
+        simp only [finish_cache] at hpc
+        rcases hsplit p hpc with rfl | hpc1
+        · -- the node just evaluated: untainted means the counter did not move
+          rw [hgn] at hpm; cases hpm
+          have hcl := hclean hnt
+          have hbs : bump n st = st := bump_safe hcl.2 st
+          cases n with
+          | leaf f lk => simp [Node.children] at hmem
+          | comp f k cs =>
+            simp only [Node.children] at hmem
+            obtain ⟨rs', items, st1, he, _, htq, hsq, _⟩ := evalImpl_comp_items himpl
+            simp only at htq hsq
+            have hs1 : st1.unsafeSeen = (enter p (bump (.comp f k cs) st)).unsafeSeen := by
+              rw [← hsq, hcl.1]; rfl
+            have hstrict := evalItems_clean (cleanRec_evalNodeF root w fuel) cs _ items st1 he hs1
+            obtain ⟨_, _, hkeys, _, hvals⟩ := evalItems_rs cs _ items st1 hcov0.wf hstrict
+            have hk : key ∈ items.map (·.1) := by
+              rw [hkeys]; exact List.mem_map.2 ⟨(key, c), hmem, rfl⟩
+            obtain ⟨⟨k', a⟩, hma, rfl⟩ := List.mem_map.1 hk
+            have hun := (hvals k' a hma).2
+            rcases hback _ hq with e | hq1
+            · have := congrArg List.length e; simp at this
+            · exact hun (by rw [← htq]; exact hq1)
+        · have hnt1 : p ∉ s1.tainted := fun h1 => hnt (hsub p h1)
+          rcases hback _ hq with e | hq1
+          · -- the child is memoised in `s1`, `path` is not
+            obtain ⟨c', hc'⟩ : ∃ c', getNode m [key] = some c' := by
+              cases m with
+              | leaf f lk => simp [Node.children] at hmem
+              | comp f k cs =>
+                obtain ⟨c', hc'⟩ := mem_alookup_some (by simpa [Node.children] using hmem)
+                exact ⟨c', by simp [getNode, hc']⟩
+            have := hcov1.down p m hpc1 hpm [key] c' hc'
+            rw [e, hpathnone] at this
+            exact this rfl
+          · exact hcov1.closed p m key c hpc1 hnt1 hpm hmem hq1
 
 /-- In a successful build of a tree with distinct keys every dynamic node of the tree has exactly
     one log entry. -/
@@ -384,8 +500,35 @@ theorem evaluate_xref_alias {w : World} {root : Node} {v : Val} {st : EvSt}
   cases hpa : plookup p st.cache with
   | none => exact absurd hpa hpc
   | some a =>
-    obtain ⟨fuel, tp, hr, hv⟩ := hcov.alias p f t a hm hpa
+    obtain ⟨fuel, tp, hr, hv, _⟩ := hcov.alias p f t a hm hpa
     obtain ⟨m, hgm, hnx⟩ := xrefResolve_spec fuel t tp hr
     exact ⟨a, fuel, tp, m, rfl, hr, hgm, hnx, hv⟩
+
+/-- "Tainted is closed", for a whole build of a tree with distinct keys: a node of the tree whose
+    memoised value is untainted is safe, all its children are untainted, and if it is a reference the
+    node its chain ends in is untainted and holds the same value. -/
+theorem evaluate_untainted_closed {w : World} {root : Node} {v : Val} {st : EvSt}
+    (huk : uniqueKeys root = true) (h : evaluate w root = .ok (v, st))
+    {p : Path} {m : Node} (hm : getNode root p = some m) (hnt : p ∉ st.tainted) :
+    eSafe m.flags = true ∧
+    (∀ key c, (key, c) ∈ m.children → p ++ [key] ∉ st.tainted) ∧
+    (∀ f t, m = .leaf f (.xref t) → ∃ a fuel tp, xrefResolve root fuel t = some tp ∧
+      plookup p st.cache = some a ∧ plookup tp st.cache = some a ∧ tp ∉ st.tainted) := by
+  have hcov := evalNodeF_cov root w huk _ false root [] {} v st Placed.root (Cov.init root) h
+  have hroot : plookup [] st.cache ≠ none := by rw [evalNodeF_cached h]; simp
+  have hpc : plookup p st.cache ≠ none := by
+    simpa using hcov.down [] root hroot rfl p m hm
+  refine ⟨?_, ?_, ?_⟩
+  · cases hs : eSafe m.flags with
+    | true => rfl
+    | false => exact absurd (hcov.utaint p m hpc hm hs) hnt
+  · intro key c hmem
+    exact hcov.closed p m key c hpc hnt hm hmem
+  · rintro f t rfl
+    cases hpa : plookup p st.cache with
+    | none => exact absurd hpa hpc
+    | some a =>
+      obtain ⟨fuel, tp, hr, hv, hc⟩ := hcov.alias p f t a hm hpa
+      exact ⟨a, fuel, tp, hr, rfl, hv, hc hnt⟩
 
 end AY
